@@ -12,7 +12,9 @@ PROVED for them:
   network with NO hypothesis on the attacker side and NO hypothesis on a blocking router's software.
 -/
 import PrimaiteModel.Model.FilterNet
+import PrimaiteModel.Model.FilterFwd
 import PrimaiteModel.Props.C06Class
+import PrimaiteModel.Props.C06Rtr
 import PrimaiteModel.Gen.FilterSoft
 namespace Primaite.Filter
 open Primaite Primaite.Acl Primaite.Cut
@@ -337,6 +339,7 @@ theorem bindOK_mem (rtr : List (Mac × Ip)) (mac : Mac) (a a' : Ip) (h : bindOK 
 
 section certifyN
 variable (t : TopoN) (apps : Nat → HostApp W) (tbls : Nat → SwitchTbl W) (rarps : Nat → RouterArp W) (bases : Nat → Soft W)
+  (rops : Nat → RtrOpaque W) (hopsOf : Nat → List Ip)
 
 /-- the software of node `n` of a labelled topology: a host behind its session manager, a switch, a router with its ARP
 service in front of arbitrary software, anything for the elements that let nothing in -/
@@ -346,16 +349,17 @@ def softsN (n : Nat) : Soft W :=
     match t.kind n with
     | .host => hostStd (apps n)
     | .switch => switchStd (tbls n)
+    | .router => rtrStd (hopsOf n) (rops n)
     | .other => bases n
   | .routerDenyC => routerArpSoft (rarps n) (bases n)
   | _ => bases n
 
 /-- the system a labelled topology denotes: EVERY node is a PrimAITE element -/
 def topoSysN : Sys Nat Nat Frame (Node W) :=
-  topoSysC t.toTopoC (softsN t apps tbls rarps bases) (fun n => nodeRx (softsN t apps tbls rarps bases n))
+  topoSysC t.toTopoC (softsN t apps tbls rarps bases rops hopsOf) (fun n => nodeRx (softsN t apps tbls rarps bases rops hopsOf n))
 
 theorem topoSysN_handler (n : Nat) :
-    (topoSysN t apps tbls rarps bases).handler n = nodeRx (softsN t apps tbls rarps bases n) := by
+    (topoSysN t apps tbls rarps bases rops hopsOf).handler n = nodeRx (softsN t apps tbls rarps bases rops hopsOf n) := by
   simp only [topoSysN, topoSysC]
   split <;> rfl
 
@@ -365,8 +369,9 @@ def topoRoleN (σ : St Nat (Node W)) (n : Nat) : RoleC W :=
     match t.kind n with
     | .host => .interiorI (hostStd (apps n)) (fun s => s.kind = .host ∧ s.ifaces = (σ n).ifaces)
     | .switch => .interiorI (switchStd (tbls n)) (fun s => s.kind = .switch)
+    | .router => .interiorI (rtrStd (hopsOf n) (rops n)) (fun s => s.kind = .router ∧ s.ifaces = (σ n).ifaces)
     | .other => .interior
-  | _ => topoRoleC t.toTopoC (softsN t apps tbls rarps bases) σ n
+  | _ => topoRoleC t.toTopoC (softsN t apps tbls rarps bases rops hopsOf) σ n
 
 /-- an ARP payload that is well-formed for the segment with subnet `L`: a request is a broadcast whose sender address lies
 in the segment's subnet and is bound to the frame's source MAC as far as the blocking routers' interfaces are concerned; a
@@ -417,9 +422,10 @@ end certifyN
 
 section certifyN2
 variable (t : TopoN) (apps : Nat → HostApp W) (tbls : Nat → SwitchTbl W) (rarps : Nat → RouterArp W) (bases : Nat → Soft W)
+  (rops : Nat → RtrOpaque W) (hopsOf : Nat → List Ip)
 
 theorem topoRoleN_noninterior (σ : St Nat (Node W)) (n : Nat) (h : t.role n ≠ .interior) :
-    topoRoleN t apps tbls rarps bases σ n = topoRoleC t.toTopoC (softsN t apps tbls rarps bases) σ n := by
+    topoRoleN t apps tbls rarps bases rops hopsOf σ n = topoRoleC t.toTopoC (softsN t apps tbls rarps bases rops hopsOf) σ n := by
   unfold topoRoleN
   cases hr : t.role n <;> simp_all
 
@@ -430,13 +436,13 @@ theorem stampOn_srcIp (i : Iface) (g : Frame) : (stampOn i g).pkt.srcIp = i.ip :
 the far end of its wires -/
 theorem hostClosed_of_certify (σ : St Nat (Node W)) (hc : certifyN t σ = true) (n : Nat) (hn : t.side n = true)
     (hr : t.role n = .interior) (hk : t.kind n = .host) :
-    (σ n).kind = .host ∧ HostClosed (topoSysN t apps tbls rarps bases) t.side (ClN t) n (σ n).ifaces := by
+    (σ n).kind = .host ∧ HostClosed (topoSysN t apps tbls rarps bases rops hopsOf) t.side (ClN t) n (σ n).ifaces := by
   obtain ⟨hcC, hlab, hnode⟩ := certifyN_parts t σ hc
   have hcn := hnode n hn
   simp only [certifyNodeN, hr, hk, Bool.and_eq_true, beq_iff_eq] at hcn
   obtain ⟨hkind, hall⟩ := hcn
-  have hsound := C06_certifyC_sound t.toTopoC (softsN t apps tbls rarps bases)
-    (fun n => nodeRx (softsN t apps tbls rarps bases n)) σ hcC n hn
+  have hsound := C06_certifyC_sound t.toTopoC (softsN t apps tbls rarps bases rops hopsOf)
+    (fun n => nodeRx (softsN t apps tbls rarps bases rops hopsOf n)) σ hcC n hn
   have hfacts : ∀ q i, (σ n).ifaces[q]? = some i → ifaceOnLabel i (t.label n q) = true ∧ srcCovers t.cls i.ip = true ∧
       bindOK t.rtrIfs i.mac i.ip = true := by
     intro q i hi
@@ -464,16 +470,75 @@ theorem hostClosed_of_certify (σ : St Nat (Node W)) (hc : certifyN t σ = true)
     refine ⟨fun h => by simp [arpReplyFrame] at h, fun _ => ?_⟩
     exact ((hcl.2 hsub).1 hreq).2.2
 
-/-- a switch of a certified labelled topology -/
-theorem switchClosed_of_certify (σ : St Nat (Node W)) (hc : certifyN t σ = true) (n : Nat) (hn : t.side n = true)
-    (hr : t.role n = .interior) (hk : t.kind n = .switch) :
-    (σ n).kind = .switch ∧ SwitchClosed (topoSysN t apps tbls rarps bases) t.side (ClN t) n := by
+/-- an interior ROUTER of a certified labelled topology (its rule list may hold anything: denials only remove emissions):
+what its software emits of its own accord, and every frame it forwards, is in the class at the far end of its wires -/
+theorem rtrClosedN_of_certify (σ : St Nat (Node W)) (hc : certifyN t σ = true) (n : Nat) (hn : t.side n = true)
+    (hr : t.role n = .interior) (hk : t.kind n = .router) :
+    (σ n).kind = .router ∧
+    RtrClosed (topoSysN t apps tbls rarps bases rops hopsOf) t.side (ClN t) n (σ n).ifaces (hopsOf n) ∧
+    (∀ p i f, SideFacing (topoSysN t apps tbls rarps bases rops hopsOf) t.side n p → ClN t n p f → (σ n).ifaces[p]? = some i →
+      f.dstMac = i.mac → f.dstMac ≠ bcastMac → ownIpL (σ n).ifaces f.pkt.dstIp = false →
+      FwdOK (topoSysN t apps tbls rarps bases rops hopsOf) (ClN t) n (σ n).ifaces f) := by
   obtain ⟨hcC, hlab, hnode⟩ := certifyN_parts t σ hc
   have hcn := hnode n hn
   simp only [certifyNodeN, hr, hk, Bool.and_eq_true, beq_iff_eq] at hcn
   obtain ⟨hkind, hall⟩ := hcn
-  have hsound := C06_certifyC_sound t.toTopoC (softsN t apps tbls rarps bases)
-    (fun n => nodeRx (softsN t apps tbls rarps bases n)) σ hcC n hn
+  have hsound := C06_certifyC_sound t.toTopoC (softsN t apps tbls rarps bases rops hopsOf)
+    (fun n => nodeRx (softsN t apps tbls rarps bases rops hopsOf n)) σ hcC n hn
+  have hfacts : ∀ (q : Nat) (i : Iface), (σ n).ifaces[q]? = some i → ifaceOnLabel i (t.label n q) = true ∧
+      srcCovers t.cls i.ip = true ∧ t.rtrIfs.contains (i.mac, i.ip) = true ∧ bindOK t.rtrIfs i.mac i.ip = true := by
+    intro q i hi
+    have := zipIdx_all _ (σ n).ifaces 0 q i hall hi
+    simp only [Nat.zero_add, Bool.and_eq_true] at this
+    exact ⟨this.1.1.1, this.1.1.2, this.1.2, this.2⟩
+  have hreq : ∀ q o a m r, (σ n).ifaces[q]? = some o → t.wire n q = some (m, r) → ClN t m r (arpRequestFrame o a) := by
+    intro q o a m r ho hw
+    obtain ⟨hlbl, hsc, _, hb⟩ := hfacts q o ho
+    have hL : t.label n q = t.label m r := label_wire t hlab n q m r hw
+    refine ⟨Or.inl (srcCovers_holds _ _ hsc _ rfl), fun _ => ⟨fun _ => ⟨rfl, ?_, hb⟩, fun h => by simp [arpRequestFrame] at h⟩⟩
+    rw [← hL]; exact ifaceOnLabel_self o _ hlbl
+  refine ⟨hkind, ⟨hsound.2.1 hr, ?_, ?_, ?_⟩, ?_⟩
+  · intro p f q o a m r _ _ ho hw _
+    exact hreq q o a m r ho hw
+  · intro p f g q o m r _ _ ho _ hg
+    obtain ⟨_, hsc, _, _⟩ := hfacts q o ho
+    refine ⟨Or.inl (srcCovers_holds _ _ hsc _ rfl), fun hs => ?_⟩
+    have := exempt_arp _ hs
+    simp [hg] at this
+  · intro p f x q o i m r _ hcl hsub hreq' ho _
+    obtain ⟨_, hsc, _, _⟩ := hfacts q o ho
+    refine ⟨Or.inl (srcCovers_holds _ _ hsc _ rfl), fun _ => ?_⟩
+    exact ⟨fun h => by simp [arpReplyFrame] at h, fun _ => ((hcl.2 hsub).1 hreq').2.2⟩
+  · intro p i f _ hcl hi hm hb hown
+    have hne : subjectToAcl f ≠ some false := by
+      intro hs
+      obtain ⟨h1, h2⟩ := hcl.2 hs
+      cases hq : f.arpReq
+      · have hbnd := h2 hq
+        rw [hm] at hbnd
+        have := bindOK_mem _ _ _ _ hbnd (hfacts p i hi).2.2.1
+        have hany : ownIpL (σ n).ifaces f.pkt.dstIp = true := by
+          simp only [ownIpL, List.any_eq_true]
+          exact ⟨i, List.mem_of_getElem? hi, by simp [this]⟩
+        rw [hown] at hany; cases hany
+      · exact hb (h1 hq).1
+    have hcls : clsHolds t.cls f.pkt = true := by
+      rcases hcl.1 with h | ⟨_, h⟩
+      · exact h
+      · exact absurd h hne
+    intro q o m r ho hw
+    refine ⟨fun x dm => ⟨Or.inl hcls, fun hs => absurd hs hne⟩, hreq q o _ m r ho hw⟩
+
+/-- a switch of a certified labelled topology -/
+theorem switchClosed_of_certify (σ : St Nat (Node W)) (hc : certifyN t σ = true) (n : Nat) (hn : t.side n = true)
+    (hr : t.role n = .interior) (hk : t.kind n = .switch) :
+    (σ n).kind = .switch ∧ SwitchClosed (topoSysN t apps tbls rarps bases rops hopsOf) t.side (ClN t) n := by
+  obtain ⟨hcC, hlab, hnode⟩ := certifyN_parts t σ hc
+  have hcn := hnode n hn
+  simp only [certifyNodeN, hr, hk, Bool.and_eq_true, beq_iff_eq] at hcn
+  obtain ⟨hkind, hall⟩ := hcn
+  have hsound := C06_certifyC_sound t.toTopoC (softsN t apps tbls rarps bases rops hopsOf)
+    (fun n => nodeRx (softsN t apps tbls rarps bases rops hopsOf n)) σ hcC n hn
   refine ⟨hkind, ⟨hsound.2.1 hr, ?_⟩⟩
   intro p f x q m r hsf hcl hw
   obtain ⟨n', q', _, hw'⟩ := hsf
@@ -490,6 +555,7 @@ end certifyN2
 
 section certifiedN
 variable (t : TopoN) (apps : Nat → HostApp W) (tbls : Nat → SwitchTbl W) (rarps : Nat → RouterArp W) (bases : Nat → Soft W)
+  (rops : Nat → RtrOpaque W) (hopsOf : Nat → List Ip)
 
 theorem arpReply_exempt (o i : Iface) (f : Frame) : subjectToAcl (arpReplyFrame o i f) = some false := by
   simp [subjectToAcl, arpReplyFrame]
@@ -503,33 +569,33 @@ The only hypothesis left is `FwSecondOK` at a FIREWALL port whose first list let
 list denies it). -/
 theorem C06_certifiedN_unchanged (σ : St Nat (Node W)) (hc : certifyN t σ = true)
     (hfw : ∀ n, t.side n = true → t.role n = .fwDenyC → ∀ p e,
-      SideFacing (topoSysN t apps tbls rarps bases) t.side n p → portEntry p = some e →
+      SideFacing (topoSysN t apps tbls rarps bases rops hopsOf) t.side n p → portEntry p = some e →
       denyClassCheck t.cls ((σ n).acls (entryAcl e)) = false →
-      FwSecondOK (topoSysN t apps tbls rarps bases) t.side (ClN t) (topoRoleN t apps tbls rarps bases σ) n
-        (softsN t apps tbls rarps bases n) (clsP t.toTopoC)
+      FwSecondOK (topoSysN t apps tbls rarps bases rops hopsOf) t.side (ClN t) (topoRoleN t apps tbls rarps bases rops hopsOf σ) n
+        (softsN t apps tbls rarps bases rops hopsOf n) (clsP t.toTopoC)
         (fun e => denyClassCheck t.cls ((σ n).acls (entryAcl e))) (fun e2 => t.finalToProtected n e2 = false) p e)
     (ops : List (Nat × Op Nat Nat Frame (Node W)))
     (hops : ∀ o ∈ ops, t.side o.2.node = true ∧ t.role o.2.node = .interior ∧ t.kind o.2.node = .host ∧
       ∃ a : Node W → SwScript W, o.2.script = fun s => hostOp s (a s)) :
-    ∀ m, (t.side m = false ∨ t.role m = .frozen) → runOps (topoSysN t apps tbls rarps bases) σ ops m = σ m := by
+    ∀ m, (t.side m = false ∨ t.role m = .frozen) → runOps (topoSysN t apps tbls rarps bases rops hopsOf) σ ops m = σ m := by
   obtain ⟨hcC, hlab, hnode⟩ := certifyN_parts t σ hc
-  have hsound := fun n hn => C06_certifyC_sound t.toTopoC (softsN t apps tbls rarps bases)
-    (fun n => nodeRx (softsN t apps tbls rarps bases n)) σ hcC n hn
+  have hsound := fun n hn => C06_certifyC_sound t.toTopoC (softsN t apps tbls rarps bases rops hopsOf)
+    (fun n => nodeRx (softsN t apps tbls rarps bases rops hopsOf n)) σ hcC n hn
   have hinvEq : ∀ n s, t.role n ≠ .interior →
-      (invC (topoSysN t apps tbls rarps bases) t.side (topoRoleN t apps tbls rarps bases σ) n s ↔
-       invC (topoSysN t apps tbls rarps bases) t.side (topoRoleC t.toTopoC (softsN t apps tbls rarps bases) σ) n s) := by
+      (invC (topoSysN t apps tbls rarps bases rops hopsOf) t.side (topoRoleN t apps tbls rarps bases rops hopsOf σ) n s ↔
+       invC (topoSysN t apps tbls rarps bases rops hopsOf) t.side (topoRoleC t.toTopoC (softsN t apps tbls rarps bases rops hopsOf) σ) n s) := by
     intro n s h
     unfold invC
-    rw [topoRoleN_noninterior t apps tbls rarps bases σ n h]
+    rw [topoRoleN_noninterior t apps tbls rarps bases rops hopsOf σ n h]
   have hhost : ∀ n, t.role n = .interior → t.kind n = .host → ∀ s,
-      invC (topoSysN t apps tbls rarps bases) t.side (topoRoleN t apps tbls rarps bases σ) n s ↔
+      invC (topoSysN t apps tbls rarps bases rops hopsOf) t.side (topoRoleN t apps tbls rarps bases rops hopsOf σ) n s ↔
         (s.kind = .host ∧ s.ifaces = (σ n).ifaces) := by
     intro n hr hk s; simp [invC, topoRoleN, hr, hk]
   have hswitch : ∀ n, t.role n = .interior → t.kind n = .switch → ∀ s,
-      invC (topoSysN t apps tbls rarps bases) t.side (topoRoleN t apps tbls rarps bases σ) n s ↔ s.kind = .switch := by
+      invC (topoSysN t apps tbls rarps bases rops hopsOf) t.side (topoRoleN t apps tbls rarps bases rops hopsOf σ) n s ↔ s.kind = .switch := by
     intro n hr hk s; simp [invC, topoRoleN, hr, hk]
   have hroles : ∀ n, t.side n = true →
-      RoleOKC (topoSysN t apps tbls rarps bases) t.side (ClN t) (topoRoleN t apps tbls rarps bases σ) n := by
+      RoleOKC (topoSysN t apps tbls rarps bases rops hopsOf) t.side (ClN t) (topoRoleN t apps tbls rarps bases rops hopsOf σ) n := by
     intro n hn
     have hs := hsound n hn
     have hcn := hnode n hn
@@ -539,35 +605,44 @@ theorem C06_certifiedN_unchanged (σ : St Nat (Node W)) (hc : certifyN t σ = tr
       cases hk : t.kind n with
       | host =>
         simp only [topoRoleN, hr, hk]
-        obtain ⟨_, hcl⟩ := hostClosed_of_certify t apps tbls rarps bases σ hc n hn hr hk
+        obtain ⟨_, hcl⟩ := hostClosed_of_certify t apps tbls rarps bases rops hopsOf σ hc n hn hr hk
         refine ⟨by rw [topoSysN_handler]; simp [softsN, hr, hk], ?_⟩
         intro s p f hJ hsf hcl'
         exact C06_host_safe _ t.side (ClN t) _ n (σ n).ifaces hn (hhost n hr hk) hcl (apps n) s p f
           ((hhost n hr hk s).mpr hJ) hsf hcl'
       | switch =>
         simp only [topoRoleN, hr, hk]
-        obtain ⟨_, hcl⟩ := switchClosed_of_certify t apps tbls rarps bases σ hc n hn hr hk
+        obtain ⟨_, hcl⟩ := switchClosed_of_certify t apps tbls rarps bases rops hopsOf σ hc n hn hr hk
         refine ⟨by rw [topoSysN_handler]; simp [softsN, hr, hk], ?_⟩
         intro s p f hJ hsf hcl'
         exact C06_switch_safe _ t.side (ClN t) _ n hn (hswitch n hr hk) hcl (tbls n) s p f
           ((hswitch n hr hk s).mpr hJ) hsf hcl'
+      | router =>
+        simp only [topoRoleN, hr, hk]
+        obtain ⟨_, hclo, hfwd⟩ := rtrClosedN_of_certify t apps tbls rarps bases rops hopsOf σ hc n hn hr hk
+        refine ⟨by rw [topoSysN_handler]; simp [softsN, hr, hk], ?_⟩
+        intro s p f hJ hsf hcl'
+        exact C06_rtr_safe _ t.side (ClN t) _ n (σ n).ifaces (hopsOf n) (fun _ => True) (fun _ _ _ => trivial)
+          (fun s' => by simp [invC, topoRoleN, hr, hk]) hn hclo
+          (fun p' i f' hsf' hcl'' hi hm hb hown _ => hfwd p' i f' hsf' hcl'' hi hm hb hown) (rops n) s p f
+          (by simpa [invC, topoRoleN, hr, hk] using hJ) hsf hcl'
       | other => simp [certifyNodeN, hr, hk] at hcn
     | ifaceDown => simp [certifyNodeN, hr] at hcn
     | routerOff =>
-      rw [topoRoleN_noninterior t apps tbls rarps bases σ n (by rw [hr]; simp)]
+      rw [topoRoleN_noninterior t apps tbls rarps bases rops hopsOf σ n (by rw [hr]; simp)]
       simp only [topoRoleC, hr]
       rw [topoSysN_handler]
     | frozen =>
-      rw [topoRoleN_noninterior t apps tbls rarps bases σ n (by rw [hr]; simp)]
+      rw [topoRoleN_noninterior t apps tbls rarps bases rops hopsOf σ n (by rw [hr]; simp)]
       simp only [topoRoleC, hr]
       rw [topoSysN_handler]
     | fwDenyC =>
       have hne : t.role n ≠ .interior := by rw [hr]; simp
-      have hrole := topoRoleN_noninterior t apps tbls rarps bases σ n hne
+      have hrole := topoRoleN_noninterior t apps tbls rarps bases rops hopsOf σ n hne
       rw [hrole]
       simp only [topoRoleC, hr]
       obtain ⟨harp, hports⟩ := hs.2.2.2 hr
-      refine ⟨topoSysN_handler t apps tbls rarps bases n, ?_, ?_⟩
+      refine ⟨topoSysN_handler t apps tbls rarps bases rops hopsOf n, ?_, ?_⟩
       · intro p f hcl
         rcases hcl.1 with h | ⟨h, _⟩
         · exact h
@@ -583,8 +658,8 @@ theorem C06_certifiedN_unchanged (σ : St Nat (Node W)) (hc : certifyN t σ = tr
           · exact h
     | routerDenyC =>
       have hne : t.role n ≠ .interior := by rw [hr]; simp
-      have hrole := topoRoleN_noninterior t apps tbls rarps bases σ n hne
-      have hsoft : softsN t apps tbls rarps bases n = routerArpSoft (rarps n) (bases n) := by simp [softsN, hr]
+      have hrole := topoRoleN_noninterior t apps tbls rarps bases rops hopsOf σ n hne
+      have hsoft : softsN t apps tbls rarps bases rops hopsOf n = routerArpSoft (rarps n) (bases n) := by simp [softsN, hr]
       simp only [certifyNodeN, hr, Bool.and_eq_true] at hcn
       obtain ⟨harpEx, hall⟩ := hcn
       have hfacts : ∀ q i, (σ n).ifaces[q]? = some i → ifaceOnLabel i (t.label n q) = true ∧
@@ -592,7 +667,7 @@ theorem C06_certifiedN_unchanged (σ : St Nat (Node W)) (hc : certifyN t σ = tr
         intro q i hi
         have := zipIdx_all _ (σ n).ifaces 0 q i hall hi
         simpa only [Nat.zero_add, Bool.and_eq_true] using this
-      have hroleN : topoRoleN t apps tbls rarps bases σ n =
+      have hroleN : topoRoleN t apps tbls rarps bases rops hopsOf σ n =
           .routerDenyC (routerArpSoft (rarps n) (bases n)) (clsP t.toTopoC) (σ n).ifaces := by
         rw [hrole]; simp only [topoRoleC, hr, hsoft]
       rw [hroleN]
@@ -602,7 +677,7 @@ theorem C06_certifiedN_unchanged (σ : St Nat (Node W)) (hc : certifyN t σ = tr
         rcases hcl.1 with h | ⟨_, h⟩
         · exact h
         · rw [hsub] at h; cases h
-      · refine C06_router_arp_safe (topoSysN t apps tbls rarps bases) t.side (ClN t) (topoRoleN t apps tbls rarps bases σ) n
+      · refine C06_router_arp_safe (topoSysN t apps tbls rarps bases rops hopsOf) t.side (ClN t) (topoRoleN t apps tbls rarps bases rops hopsOf σ) n
           (rarps n) (bases n) (clsP t.toTopoC) (σ n).ifaces hroleN ?_ ?_ ?_ hn
         · -- class facts about genuine ARP packets, from `ClN`
           intro p i f hsf hcl hsub hi
@@ -621,28 +696,32 @@ theorem C06_certifiedN_unchanged (σ : St Nat (Node W)) (hc : certifyN t σ = tr
           refine ⟨fun h => by simp [arpReplyFrame] at h, fun _ => ?_⟩
           exact ((hcl.2 hsub).1 hreq).2.2
   have hσ : ∀ n, t.side n = true →
-      invC (topoSysN t apps tbls rarps bases) t.side (topoRoleN t apps tbls rarps bases σ) n (σ n) := by
+      invC (topoSysN t apps tbls rarps bases rops hopsOf) t.side (topoRoleN t apps tbls rarps bases rops hopsOf σ) n (σ n) := by
     intro n hn
     cases hr : t.role n with
     | interior =>
       cases hk : t.kind n with
-      | host => exact (hhost n hr hk _).mpr ⟨(hostClosed_of_certify t apps tbls rarps bases σ hc n hn hr hk).1, rfl⟩
-      | switch => exact (hswitch n hr hk _).mpr (switchClosed_of_certify t apps tbls rarps bases σ hc n hn hr hk).1
+      | host => exact (hhost n hr hk _).mpr ⟨(hostClosed_of_certify t apps tbls rarps bases rops hopsOf σ hc n hn hr hk).1, rfl⟩
+      | switch => exact (hswitch n hr hk _).mpr (switchClosed_of_certify t apps tbls rarps bases rops hopsOf σ hc n hn hr hk).1
+      | router =>
+        have := (rtrClosedN_of_certify t apps tbls rarps bases rops hopsOf σ hc n hn hr hk).1
+        simp only [invC, topoRoleN, hr, hk]
+        exact ⟨this, trivial⟩
       | other => have hcn := hnode n hn; simp [certifyNodeN, hr, hk] at hcn
     | ifaceDown => exact (hinvEq n _ (by rw [hr]; simp)).mpr (hsound n hn).1
     | routerOff => exact (hinvEq n _ (by rw [hr]; simp)).mpr (hsound n hn).1
     | routerDenyC => exact (hinvEq n _ (by rw [hr]; simp)).mpr (hsound n hn).1
     | fwDenyC => exact (hinvEq n _ (by rw [hr]; simp)).mpr (hsound n hn).1
     | frozen => exact (hinvEq n _ (by rw [hr]; simp)).mpr (hsound n hn).1
-  have hops' : ∀ o ∈ ops, SafeOp (topoSysN t apps tbls rarps bases) t.side
-      (FromSideC (topoSysN t apps tbls rarps bases) t.side (ClN t))
-      (invC (topoSysN t apps tbls rarps bases) t.side (topoRoleN t apps tbls rarps bases σ)) o.2 := by
+  have hops' : ∀ o ∈ ops, SafeOp (topoSysN t apps tbls rarps bases rops hopsOf) t.side
+      (FromSideC (topoSysN t apps tbls rarps bases rops hopsOf) t.side (ClN t))
+      (invC (topoSysN t apps tbls rarps bases rops hopsOf) t.side (topoRoleN t apps tbls rarps bases rops hopsOf σ)) o.2 := by
     intro o ho
     obtain ⟨h1, h2, h3, a, ha⟩ := hops o ho
     refine ⟨h1, ?_⟩
     intro s hs
     rw [ha]
-    obtain ⟨_, hcl⟩ := hostClosed_of_certify t apps tbls rarps bases σ hc o.2.node h1 h2 h3
+    obtain ⟨_, hcl⟩ := hostClosed_of_certify t apps tbls rarps bases rops hopsOf σ hc o.2.node h1 h2 h3
     exact C06_hostOp_safe _ t.side (ClN t) _ o.2.node (σ o.2.node).ifaces h1 (hhost o.2.node h2 h3) hcl a s hs
   intro m hm
   have hgood := runOps_good _ t.side _ _ (C06_cut_class _ t.side (ClN t) _ hroles) ops σ hops' hσ
@@ -695,10 +774,11 @@ example : certifyN exTopoN exStatesN = true ∧
 
 /-- the theorem applies: whatever A's software does, whatever the switch has learned, whatever the router's other software is -/
 example (apps : Nat → HostApp Unit) (tbls : Nat → SwitchTbl Unit) (rarps : Nat → RouterArp Unit) (bases : Nat → Soft Unit)
+    (rops : Nat → RtrOpaque Unit) (hopsOf : Nat → List Ip)
     (ops : List (Nat × Op Nat Nat Frame (Node Unit)))
     (hops : ∀ o ∈ ops, o.2.node = 0 ∧ ∃ a : Node Unit → SwScript Unit, o.2.script = fun s => hostOp s (a s)) :
-    runOps (topoSysN exTopoN apps tbls rarps bases) exStatesN ops 3 = exStatesN 3 := by
-  apply C06_certifiedN_unchanged exTopoN apps tbls rarps bases exStatesN (by decide)
+    runOps (topoSysN exTopoN apps tbls rarps bases rops hopsOf) exStatesN ops 3 = exStatesN 3 := by
+  apply C06_certifiedN_unchanged exTopoN apps tbls rarps bases rops hopsOf exStatesN (by decide)
   · intro n _ hr; exfalso; revert hr
     match n with
     | 0 | 1 | 2 | 3 => decide
@@ -708,6 +788,33 @@ example (apps : Nat → HostApp Unit) (tbls : Nat → SwitchTbl Unit) (rarps : N
     rw [h0]
     exact ⟨by decide, by decide, by decide, a, ha⟩
   · left; decide
+
+/-- an interior router on the attacker side: A (0) — R1 (1, plain forwarder) — R2 (2, denies everything) — B (3) -/
+def exTopoN2 : TopoN :=
+  { nodes := [(true, .interior), (true, .interior), (true, .routerDenyC), (false, .interior)],
+    wires := [((0, 0), (1, 0)), ((1, 0), (0, 0)), ((1, 1), (2, 0)), ((2, 0), (1, 1)), ((2, 1), (3, 0)), ((3, 0), (2, 1))],
+    cls := [anyPattern], arpExempt := true, kinds := [.host, .router, .other, .host],
+    labels := [((0, 0), exNetA), ((1, 0), exNetA), ((1, 1), (0x0A000900#32, 0xFFFFFF00#32)), ((2, 0), (0x0A000900#32, 0xFFFFFF00#32)),
+               ((2, 1), exNetB), ((3, 0), exNetB)],
+    rtrIfs := [(31, 0x0A000101#32), (32, 0x0A000901#32), (33, 0x0A000902#32), (34, 0x0A000201#32)] }
+
+def exR1 : Node Unit :=
+  { kind := .router, on := true, acls := fun _ => Acl.empty 24 .permit, sw := (),
+    ifaces := [{ enabled := true, mac := 31, ip := 0x0A000101#32, mask := 0xFFFFFF00#32 },
+               { enabled := true, mac := 32, ip := 0x0A000901#32, mask := 0xFFFFFF00#32 }] }
+
+def exR2 : Node Unit :=
+  { kind := .router, on := true, acls := fun _ => exDenyAllAcl, sw := (),
+    ifaces := [{ enabled := true, mac := 33, ip := 0x0A000902#32, mask := 0xFFFFFF00#32 },
+               { enabled := true, mac := 34, ip := 0x0A000201#32, mask := 0xFFFFFF00#32 }] }
+
+def exStatesN2 : Nat → Node Unit := fun n =>
+  if n = 1 then exR1 else if n = 2 then exR2 else exHost (if n = 0 then 0x0A00010A#32 else 0x0A000214#32)
+
+/-- `certifyN` accepts the interior router (round 4); with a source-exact class it does not: the router's own address is
+outside the class (its echo reply would be) -/
+example : certifyN exTopoN2 exStatesN2 = true ∧
+    certifyN { exTopoN2 with cls := [{ anyPattern with srcIp := some 0x0A00010A#32 }] } exStatesN2 = false := by decide
 
 /-- a host's operation really emits: a stamped frame leaves on port 0 with A's own source -/
 example : hostOp (exHost 0x0A00010A#32) (.send () 0 exPing (fun w => .done w)) =
